@@ -203,9 +203,31 @@ func checkC02(e *Engine, r *Report) {
 						}
 					}
 				}
-				if _, ok := in.(*ssa.MakeClosure); ok && !dominatesInstr(reduce, in) && in.Block() != reduce.Block() {
-					// closures created before the reduction could see unreduced CPUs
-					okRed, w = false, "a closure is created before the reduction: "+e.InstrPos(in)
+				if mc, ok := in.(*ssa.MakeClosure); ok {
+					// a closure capturing the cell sees whatever the cell holds when it RUNS (captured by reference): every
+					// use of the closure value (call, argument, store) must come after the reduction; a deferred one runs at
+					// exit, which is after the reduction when that dominates every return
+					captures := false
+					for _, b := range mc.Bindings {
+						if b == reduce.Addr {
+							captures = true
+						}
+					}
+					if captures && mc.Referrers() != nil {
+						for _, use := range *mc.Referrers() {
+							if _, isDefer := use.(*ssa.Defer); isDefer {
+								for _, ret := range Returns(share) {
+									if !dominatesInstr(reduce, ret) {
+										okRed, w = false, "a deferred closure reading the offered CPUs may run on a path without the reduction: "+e.InstrPos(use)
+									}
+								}
+								continue
+							}
+							if !dominatesInstr(reduce, use) {
+								okRed, w = false, "a closure reading the offered CPUs is used before the reduction: "+e.InstrPos(use)
+							}
+						}
+					}
 				}
 			})
 			// nothing else rewrites the cell afterwards
@@ -689,15 +711,18 @@ func checkC02(e *Engine, r *Report) {
 				}
 				in, _ := v.(ssa.Instruction)
 				for _, cf := range dominatingConds(in.Block()) {
-					b, ok := cf.Cond.(*ssa.BinOp)
-					if !ok || !cf.Val {
+					// limit ? count, with the limit field on the left: MaxCpus < count / MinCpus > count (either spelling, either polarity)
+					_, _, op, ok := cmpOriented(cf.Cond, func(v ssa.Value) bool { g, _ := loadedField(v); return g != nil && g == f })
+					if !ok {
 						continue
 					}
-					g, _ := loadedField(b.Y)
-					if f == fMax && g == fMax && b.Op == token.GTR {
+					if !cf.Val {
+						op = negCmp(op)
+					}
+					if f == fMax && op == token.LSS {
 						okMax = true
 					}
-					if f == fMin && g == fMin && b.Op == token.LSS {
+					if f == fMin && op == token.GTR {
 						okMin = true
 					}
 				}
@@ -716,21 +741,17 @@ func checkC02(e *Engine, r *Report) {
 			}
 		})
 		atLimit := func(cond ssa.Value) (bool, bool) {
-			b, ok := cond.(*ssa.BinOp)
+			_, _, op, ok := cmpOriented(cond, func(v ssa.Value) bool { f, _ := loadedField(v); return f != nil && f == fMaxB })
 			if !ok {
 				return false, false
 			}
-			f, _ := loadedField(b.X)
-			if f != fMaxB {
-				return false, false
-			}
-			switch b.Op {
+			switch op {
 			case token.GTR: // MaxBalloons > NoLimit
 				return true, true
 			case token.LEQ: // MaxBalloons <= len(existing)
 				return true, true
 			case token.LSS, token.GEQ:
-				return true, b.Op == token.GEQ
+				return true, op == token.GEQ
 			}
 			return false, false
 		}
@@ -738,18 +759,15 @@ func checkC02(e *Engine, r *Report) {
 		r.Check("R2:max-balloons", "R2 limits", "no balloon is created once its type has MaxBalloons instances", e.Pos(newBln.Pos()), newBln, okNew, "", true)
 		// freeBalloon: delete only above MinBalloons
 		atMin := func(cond ssa.Value) (bool, bool) {
-			b, ok := cond.(*ssa.BinOp)
+			// MinBalloons on the left: MinBalloons < len(sameDef) is false, MinBalloons >= len(sameDef) is true
+			_, _, op, ok := cmpOriented(cond, func(v ssa.Value) bool { f, _ := loadedField(v); return f != nil && f == fMinB })
 			if !ok {
 				return false, false
 			}
-			f, _ := loadedField(b.Y)
-			if f != fMinB {
-				return false, false
-			}
-			switch b.Op {
-			case token.GTR:
-				return true, false // len(sameDef) > MinBalloons is false
-			case token.LEQ:
+			switch op {
+			case token.LSS:
+				return true, false
+			case token.GEQ:
 				return true, true
 			}
 			return false, false
@@ -765,14 +783,15 @@ func checkC02(e *Engine, r *Report) {
 		if len(ac) == 1 && len(rc) == 1 {
 			avail := e.FuncObj(pkgBL, "Balloon.AvailMilliCpus")
 			tooSmallAndResizeFailed := func(cond ssa.Value) (bool, bool) {
-				if b, ok := cond.(*ssa.BinOp); ok {
-					if c, ok := b.X.(*ssa.Call); ok && callObj(c.Common()) == avail {
-						switch b.Op {
-						case token.LSS:
-							return true, true
-						case token.GEQ:
-							return true, false
-						}
+				if _, _, op, ok := cmpOriented(cond, func(v ssa.Value) bool {
+					c, ok := v.(*ssa.Call)
+					return ok && callObj(c.Common()) == avail
+				}); ok {
+					switch op {
+					case token.LSS:
+						return true, true
+					case token.GEQ:
+						return true, false
 					}
 				}
 				k, v := callSucceeded(rc[0].Value())(cond)
